@@ -97,6 +97,11 @@ func (dm *DagModifier) WriteAt(b []byte, offset int64) (int, error) {
 		// If we would overwrite the previous write
 		if len(b) >= dm.wrBuf.Len() {
 			dm.wrBuf.Reset()
+		} else {
+			// Shorter than the pending write: overwrite its first bytes
+			// in place instead of appending after it.
+			dm.read = nil
+			return copy(dm.wrBuf.Bytes(), b), nil
 		}
 	} else if uint64(offset) != dm.curWrOff {
 		size, err := dm.Size()
